@@ -62,6 +62,13 @@ MCConfigs ==
     [] Family = "twofaults" ->
          {Mk(f, WithTrailing(c \o <<Cat>>), b, w, FALSE) : f \in {<< Missing, <<1, 2, 3>> >>, << <<1, -2, 3>> >>, << <<1, 2>>, Missing, <<-3, 4>> >>},
               c \in SeqsUpTo({V("fail", 1), V("fail", 2), V("cat", 0)}, MaxLen), b \in Bs, w \in {0, 2}}
+    \* three and more input-side errors in one run: the reader posts every one of them (blocking send, capacity 1) and goes
+    \* on with the next file / batch, so main must keep draining the error channels until the writer is done
+    [] Family = "manyfaults" ->
+         {Mk(f, WithTrailing(c), b, 0, FALSE) :
+              f \in {<< Missing, Missing, Missing >>, << Missing, <<1>>, Missing, Missing >>, << Missing, Missing, <<1, 2>>, Missing, Missing >>,
+                     << <<-1, -2, -3>> >>, << <<-1, 2, -3, -4>> >>, << <<-1>>, Missing, <<-2>>, Missing >>, << <<-1>>, <<-2>>, <<-3>>, <<4>> >>},
+              c \in SeqsUpTo({V("cat", 0), V("head", 1), V("tac", 0)}, MaxLen), b \in Bs}
     [] Family = "tailf" ->
          {MkFed(f, WithTrailing(c), b) : f \in {<< <<1, 2, 3>> >>, << <<1>> >>, << << >> >>},
               c \in {x \in SeqsUpTo(StreamingKinds, MaxLen) : ~PrintBeforeHead(x)}, b \in Bs}
